@@ -968,6 +968,9 @@ class Environment:
                 # affect the template, not the environment globals.
                 if globals:
                     template.globals.update(globals)
+                    # The default module was rendered with the old
+                    # globals, build it again when it's needed.
+                    template._module = None
 
                 return template
 
